@@ -70,7 +70,7 @@ def tree_hash(paths, extra=""):
 
 
 DYN_POLICIES = ["fast", "chk", "vec", "map", "ind", "indvec", "indfast", "thr", "old", "prj", "prjmap",
-                "dfr", "dfrh", "dbg", "rel", "rem", "stdd", "stdr", "stdmap", "wide", "widemap"]
+                "dfr", "dfrh", "dbg", "rel", "rem", "stdd", "stdr", "stdmap", "wide", "widemap", "small", "smallchk"]
 
 CXX = os.environ.get("VERIF_CXX", "g++")
 BASE_FLAGS = ["-std=c++17", "-I" + os.path.join(REPO, "include"), "-DYOMM2_VERIF",
